@@ -55,6 +55,7 @@ type RouterCfg struct {
 	Realms   []RealmCfg `json:"realms"`
 	Template *RealmCfg  `json:"template"`
 	Closing  bool       `json:"closing"` // AttachClient arrives while Router.Close is in progress
+	Stopped  bool       `json:"stopped"` // AttachClient arrives after Router.Close returned
 }
 
 type PeerCfg struct {
@@ -252,7 +253,7 @@ func sexpRouter(rt *RouterCfg) string {
 	if rt.Template != nil {
 		t = sexpRealmCfg(rt.Template)
 	}
-	return fmt.Sprintf("(router %s (realms%s) %s)", bit(rt.Closing), prefixSpace(rs), t)
+	return fmt.Sprintf("(router %s (realms%s) %s)", bit(rt.Closing || rt.Stopped), prefixSpace(rs), t)
 }
 
 func prefixSpace(l []string) string {
